@@ -1,24 +1,37 @@
 --------------------------- MODULE Trace_AttrSet ---------------------------
 (* code -> spec: validates observations recorded from the real attribute      *)
 (* package against AttrModel.  One line per step:                              *)
-(*  New    {sc, kesc, vals}       new scenario: kesc[k] = escaped text of key  *)
+(*  New    {sc, kesc, vals, nregs} new scenario: kesc[k] = escaped text of key *)
 (*                                rank k; vals = value pool [t, x, e] with e = *)
 (*                                the text of the value in the default encoding*)
+(*                                nregs = number of Set registers              *)
 (*  Build  {dst, how, list, pred, obs{slice, after, dropped, len, selfEq}}     *)
 (*  Filter {src, dst, pred, obs{slice, dropped, orig, selfEq}}                 *)
 (*  Merge  {a, b, obs{seq}}                                                    *)
 (*  Record {src, obs{idx, size}}  real map keyed by Equivalent(): 1-based      *)
 (*                                insertion index of the entry hit (size+1=new)*)
 (*  Cmp    {a, b, obs{eq, eqr, key}}                                           *)
-(*  Obs    {src, obs{slice, len, iter, look, ghost, enc, selfEq}}              *)
+(*  Obs    {src, obs{slice, len, iter, look, get, ghost, enc, selfEq}}         *)
+(*  Enc    {src, obs{enc}}        Set.Encoded(DefaultEncoder()) alone          *)
+(*  ItOpen {it, kind, a, b}       iterator variable it := regs[a].Iter()  or   *)
+(*                                NewMergeIterator(regs[a], regs[b])           *)
+(*  ItOp   {it, op, obs{b, i, a, n, s}}  one call on that iterator and what it *)
+(*                                returned: Next -> b; Attribute / Label -> a  *)
+(*                                (i = -1); Indexed* -> i, a; Len -> n;        *)
+(*                                ToSlice -> s                                 *)
+(* Lines recorded in the concurrent phase (several goroutines using the same   *)
+(* immutable Sets at once, each distinct observation recorded once) are the    *)
+(* same events and are judged by the same clauses: a concurrent observation    *)
+(* must equal the sequential result.                                           *)
 (* Registers hold the MODEL's sets (the oracle), never the observed ones.      *)
 EXTENDS AttrModel, TraceKit
 
-VARIABLES l, kesc, vals, regs, table
-vars == <<l, kesc, vals, regs, table>>
+VARIABLES l, kesc, vals, regs, table, its
+vars == <<l, kesc, vals, regs, table, its>>
 
-R == 4
-EmptyRegs == [i \in 1..R |-> <<>>]
+NI == 6                              \* iterator variables per scenario
+NoIt == [s |-> <<>>, P |-> {0}, m |-> FALSE]
+EmptyIts == [i \in 1..NI |-> NoIt]
 E == Trace[l]
 
 (* report a broken clause; always TRUE so the trace is consumed to the end *)
@@ -27,13 +40,14 @@ Chk(c, kind, nan) == (~c) => Viol([line |-> l, sc |-> E.sc, ev |-> E.ev, kind |-
 VText(a) == vals[CHOOSE i \in DOMAIN vals : vals[i].t = a.t /\ vals[i].x = a.x].e
 VTexts(s) == [i \in DOMAIN s |-> VText(s[i])]
 
-Init == l = 1 /\ kesc = <<>> /\ vals = <<>> /\ regs = EmptyRegs /\ table = <<>>
+Init == l = 1 /\ kesc = <<>> /\ vals = <<>> /\ regs = <<>> /\ table = <<>> /\ its = EmptyIts
 
 Is(ev) == l <= Len(Trace) /\ E.ev = ev
 Adv == l' = l + 1
 
 TNew == /\ Is("New")
-        /\ kesc' = E.kesc /\ vals' = E.vals /\ regs' = EmptyRegs /\ table' = <<>> /\ Adv
+        /\ kesc' = E.kesc /\ vals' = E.vals /\ regs' = [i \in 1..E.nregs |-> <<>>] /\ table' = <<>>
+        /\ its' = EmptyIts /\ Adv
 
 TBuild == /\ Is("Build")
           /\ LET c == Canon(E.list)
@@ -45,7 +59,7 @@ TBuild == /\ Is("Build")
                 /\ Chk(E.obs.len = Len(want), "len", nan)
                 /\ Chk(E.obs.selfEq, "selfeq", nan)
                 /\ regs' = [regs EXCEPT ![E.dst] = want]
-          /\ Adv /\ UNCHANGED <<kesc, vals, table>>
+          /\ Adv /\ UNCHANGED <<kesc, vals, table, its>>
 
 TFilter == /\ Is("Filter")
            /\ LET s == regs[E.src]
@@ -56,11 +70,11 @@ TFilter == /\ Is("Filter")
                  /\ Chk(E.obs.orig = s, "orig", nan)
                  /\ Chk(E.obs.selfEq, "selfeq", nan)
                  /\ regs' = [regs EXCEPT ![E.dst] = want]
-           /\ Adv /\ UNCHANGED <<kesc, vals, table>>
+           /\ Adv /\ UNCHANGED <<kesc, vals, table, its>>
 
 TMerge == /\ Is("Merge")
           /\ Chk(E.obs.seq = Merge(regs[E.a], regs[E.b]), "merged", FALSE)
-          /\ Adv /\ UNCHANGED <<kesc, vals, regs, table>>
+          /\ Adv /\ UNCHANGED <<kesc, vals, regs, table, its>>
 
 (* the entry hit must hold the same Set; a new entry only if no entry holds it;  *)
 (* +0/-0 inside float slices may go either way.  The table follows the real map. *)
@@ -74,7 +88,7 @@ TRecord == /\ Is("Record")
                  /\ Chk(hit # n + 1 => hit \in tol, "table-merge", HasNanSlice(s))
                  /\ table' = IF hit = n + 1 THEN Append(table, s) ELSE table
                  /\ Chk(E.obs.size = Len(table'), "table-size", HasNanSlice(s))
-           /\ Adv /\ UNCHANGED <<kesc, vals, regs>>
+           /\ Adv /\ UNCHANGED <<kesc, vals, regs, its>>
 
 TCmp == /\ Is("Cmp")
         /\ LET a == regs[E.a]
@@ -83,7 +97,7 @@ TCmp == /\ Is("Cmp")
            IN /\ Chk(MustEq(a, b) => E.obs.eq, "eq-missed", nan) /\ Chk(MustNe(a, b) => ~E.obs.eq, "eq-spurious", nan)
               /\ Chk(MustEq(a, b) => E.obs.eqr, "eq-missed", nan) /\ Chk(MustNe(a, b) => ~E.obs.eqr, "eq-spurious", nan)
               /\ Chk(MustEq(a, b) => E.obs.key, "eq-missed", nan) /\ Chk(MustNe(a, b) => ~E.obs.key, "eq-spurious", nan)
-        /\ Adv /\ UNCHANGED <<kesc, vals, regs, table>>
+        /\ Adv /\ UNCHANGED <<kesc, vals, regs, table, its>>
 
 TObs == /\ Is("Obs")
         /\ LET s == regs[E.src]
@@ -92,17 +106,56 @@ TObs == /\ Is("Obs")
               /\ Chk(E.obs.len = Len(s), "len", nan)
               /\ Chk(E.obs.iter = Indexed(s), "iter", nan)
               /\ Chk(E.obs.look = LookAll(s, Len(kesc)), "look", nan)
+              /\ Chk(E.obs.get = GetAll(s), "get", nan)
               /\ Chk(~E.obs.ghost, "look", nan)
               /\ Chk(E.obs.enc = Enc(s, kesc, VTexts(s)), "enc", nan)
               /\ Chk(E.obs.selfEq, "selfeq", nan)
-        /\ Adv /\ UNCHANGED <<kesc, vals, regs, table>>
+        /\ Adv /\ UNCHANGED <<kesc, vals, regs, table, its>>
+
+TEnc == /\ Is("Enc")
+        /\ LET s == regs[E.src]
+           IN Chk(E.obs.enc = Enc(s, kesc, VTexts(s)), "enc", HasNanSlice(s))
+        /\ Adv /\ UNCHANGED <<kesc, vals, regs, table, its>>
+
+(* ---- iterator histories: the positions are AttrModel's (ItStep, ItNextAdm, ...) ---- *)
+TItOpen == /\ Is("ItOpen")
+           /\ its' = [its EXCEPT ![E.it] = [s |-> IF E.kind = "merge" THEN Merge(regs[E.a], regs[E.b]) ELSE regs[E.a],
+                                             P |-> ItFresh, m |-> E.kind = "merge"]]
+           /\ Adv /\ UNCHANGED <<kesc, vals, regs, table>>
+
+ItKind(it, k) == IF it.m THEN "merge-" \o k ELSE "iter-" \o k
+
+TItOp == /\ Is("ItOp")
+         /\ LET it == its[E.it]
+                s == it.s
+                P == it.P
+                nan == HasNanSlice(s)
+                o == E.obs
+            IN CASE E.op = "Next" ->
+                      /\ Chk(o.b \in ItNextAdm(s, P), ItKind(it, "next"), nan)
+                      /\ its' = [its EXCEPT ![E.it].P = IF o.b \in ItNextAdm(s, P) THEN ItNextTo(s, P, o.b) ELSE ItResync(s, o.b)]
+                 [] E.op \in {"Attribute", "IndexedAttribute", "Label", "IndexedLabel"} ->
+                      (* defined only after Next returned true; elsewhere the documentation is silent *)
+                      IF ItAtElem(s, P)
+                      THEN /\ Chk(ItAttrTo(s, P, o) # {}, ItKind(it, "attr"), nan)
+                           /\ Chk((E.op \in {"IndexedAttribute", "IndexedLabel"}) = (o.i # -1), ItKind(it, "attr"), nan)
+                           /\ its' = [its EXCEPT ![E.it].P = IF ItAttrTo(s, P, o) # {} THEN ItAttrTo(s, P, o) ELSE P]
+                      ELSE UNCHANGED its
+                 [] E.op = "Len" ->
+                      /\ Chk(o.n = Len(s), ItKind(it, "len"), nan)
+                      /\ UNCHANGED its
+                 [] E.op = "ToSlice" ->
+                      /\ Chk(o.s = s, ItKind(it, "toslice"), nan)
+                      /\ its' = [its EXCEPT ![E.it].P = ItAfterSlice(s)]
+         /\ Adv /\ UNCHANGED <<kesc, vals, regs, table>>
 
 TDone == l = Len(Trace) + 1 /\ Accepted(l) /\ UNCHANGED vars
 
-Next == TNew \/ TBuild \/ TFilter \/ TMerge \/ TRecord \/ TCmp \/ TObs \/ TDone
+Next == TNew \/ TBuild \/ TFilter \/ TMerge \/ TRecord \/ TCmp \/ TObs \/ TEnc \/ TItOpen \/ TItOp \/ TDone
 Spec == Init /\ [][Next]_vars
 
 (* the model-side statement holds at every step of every real trace *)
-Inv == /\ \A i \in 1..R : IsSet(regs[i])
+Inv == /\ \A i \in DOMAIN regs : IsSet(regs[i])
        /\ \A i \in DOMAIN table : IsSet(table[i])
+       /\ \A i \in 1..NI : IsSet(its[i].s) /\ its[i].P \subseteq 0..(Len(its[i].s) + 1)
 =============================================================================
